@@ -242,6 +242,7 @@ pub fn run(args: &Args) -> (Meta, Stats) {
                 for _ in 0..3 {
                     let mut o = HtmlOpts::default();
                     o.context = Some(rng.pick(&contexts).clone());
+                    o.fragment_form = rng.chance(1, 4);
                     run_case(&input, &[], &o, st);
                 }
             }
